@@ -76,6 +76,7 @@ def c05_all(ctx):
     fscore_stages(ctx)
     mount_stages(ctx)
     sub_stages(ctx)
+    links_stage(ctx)  # lib/checks_helpers.py: error type and path fields of Symlink / Lstat failures
 
 
 CHECKS.update({
